@@ -286,4 +286,36 @@ def register(_reg, _mt, STD):  # noqa: ANN001
     _extend('C13', [forwarding.rule_c18_r2])
     _extend('C16', [round5.rule_record_before_hook])
     _extend('C19', [agreement.rule_c05_r4])
+    _extend('C05', [round5.rule_supplied_values_converted])
+    _extend('C15', [round5.rule_supplied_values_converted])
+    _extend('C08', [round5.rule_cause_not_truncated])
+    _extend('C09', [round5.rule_no_namespace_adoption])
+    _extend('C10', [round5.rule_no_state_on_class_via_instance])
+    _extend('C12', [round5.rule_tag_tables_aligned])
+    _extend('C11', [round5.rule_declared_type_reaches_converter])
+    _extend('C11', [round5.rule_no_value_keyed_memo])
+    _extend('C10', [round5.rule_no_value_keyed_memo])
+    _extend('C13', [round5.rule_condition_makers_total])
+    _extend('C13', [round5.rule_predicate_exception_carried])
+    _extend('C14', [round5.rule_init_stores_raw])
+    _extend('C17', [dispatch.rule_c01_r1])
+    _extend('C17', [round5.rule_options_replaced_independently])
+    _extend('C18', [round5.rule_handlers_see_dispatch_subject])
+    _extend('C19', [round5.rule_format_options_only_forwarded])
+    _extend('C20', [rename.rule_c20_r9])
+    _extend('C17', [round5.rule_given_option_reaches_record])
+    _extend('C20', [round5.rule_given_option_reaches_record])
+    _extend('C19', [round5.rule_io_not_memoised])
+    _extend('C04', [round5.rule_error_nodes_not_compared])
+    # round 7: rules that are necessary conditions of a sibling property as well
+    _extend('C01', [extra.rule_substitution_early_return])
+    _extend('C02', [classes_rules.rule_c16_r5])
+    _extend('C03', [errors_rules.rule_c07_r4])
+    _extend('C05', [extra.rule_whole_value_delegation])
+    _extend('C06', [round5.rule_value_or_list_writer, forwarding.rule_c18_r3])
+    _extend('C12', [round5.rule_runtime_writer_only_for_any])
+    _extend('C15', [rename.rule_c20_r1])
+    _extend('C16', [round5.rule_field_settings_copied])
+    _extend('C14', [round5.rule_field_keyword_receivers])
+    _extend('C03', [round5.rule_field_keyword_receivers])
     _extend('C20', [rename.rule_c20_r6, rename.rule_c20_r7, round5.rule_style_guard_agrees])
